@@ -2,6 +2,9 @@
   C10 — helper lemmas for the power-spectrum model (masks, block means, peak ranges, DFT).
 -/
 import Verif.Model.C10
+import Verif.NumReal
+import Mathlib.Tactic.FieldSimp
+import Mathlib.Tactic.Positivity
 import Mathlib.Order.Defs.LinearOrder
 import Mathlib.Tactic.Ring
 import Mathlib.Tactic.Linarith
@@ -584,4 +587,112 @@ theorem identifyPeaks_char (flat : List α) (baseline cutoff : α) (hbc : baseli
     · rfl
 
 end peaks
+/-! ## the `ℝ` reading of the DFT / PSD formulas -/
+
+section real
+open RealLike
+
+theorem ofNat'_real (n : Nat) : (ofNat' n : ℝ) = (n : ℝ) := by
+  unfold ofNat'
+  simp only [OfScientific.ofScientific, Rat.ofScientific_false_def, Nat.pow_zero, Nat.mul_one]
+  norm_cast
+
+theorem zero_lit : (0.0 : ℝ) = 0 := by norm_num
+theorem one_lit : (1.0 : ℝ) = 1 := by norm_num
+theorem two_lit : (2.0 : ℝ) = 2 := by norm_num
+
+theorem rsum_real (l : List ℝ) : rsum l = l.sum := by
+  induction l with
+  | nil => simp [rsum, zero_lit]
+  | cons x xs ih => simp [rsum, ih]
+
+theorem rsum_map_mul (a : ℝ) (l : List ℝ) : rsum (l.map (a * ·)) = a * rsum l := by
+  induction l with
+  | nil => simp [rsum, zero_lit]
+  | cons x xs ih => simp only [List.map_cons, rsum, ih]; ring
+
+theorem rsum_map_add (c : ℝ) (l : List ℝ) : rsum (l.map (· + c)) = rsum l + l.length * c := by
+  induction l with
+  | nil => simp [rsum, zero_lit]
+  | cons x xs ih => simp only [List.map_cons, rsum, ih, List.length_cons]; push_cast; ring
+
+theorem mean_map_mul (a : ℝ) (l : List ℝ) : mean (l.map (a * ·)) = a * mean l := by
+  unfold mean
+  rw [rsum_map_mul, List.length_map]; ring
+
+theorem demean_map_mul (a : ℝ) (l : List ℝ) : demean (l.map (a * ·)) = (demean l).map (a * ·) := by
+  unfold demean
+  simp only [mean_map_mul, List.map_map]
+  apply List.map_congr_left
+  intro v _
+  simp only [Function.comp]; ring
+
+theorem demean_map_add (c : ℝ) (l : List ℝ) : demean (l.map (· + c)) = demean l := by
+  unfold demean
+  cases l with
+  | nil => rfl
+  | cons x xs =>
+    have hne : ((x :: xs).length : ℝ) ≠ 0 := by simp; positivity
+    have hm : mean ((x :: xs).map (· + c)) = mean (x :: xs) + c := by
+      unfold mean
+      rw [rsum_map_add, List.length_map, ofNat'_real]
+      field_simp
+    rw [hm, List.map_map]
+    apply List.map_congr_left
+    intro v _
+    simp only [Function.comp]; ring
+
+theorem dftReFrom_map_mul (a : ℝ) (k N : Nat) (l : List ℝ) : ∀ n,
+    dftReFrom k N n (l.map (a * ·)) = a * dftReFrom k N n l := by
+  induction l with
+  | nil => intro n; simp [dftReFrom, zero_lit]
+  | cons x xs ih => intro n; simp only [List.map_cons, dftReFrom, ih]; ring
+
+theorem dftImFrom_map_mul (a : ℝ) (k N : Nat) (l : List ℝ) : ∀ n,
+    dftImFrom k N n (l.map (a * ·)) = a * dftImFrom k N n l := by
+  induction l with
+  | nil => intro n; simp [dftImFrom, zero_lit]
+  | cons x xs ih => intro n; simp only [List.map_cons, dftImFrom, ih]; ring
+
+theorem dftSq_map_mul (a : ℝ) (l : List ℝ) (k : Nat) :
+    dftSq (l.map (a * ·)) k = a * a * dftSq l k := by
+  unfold dftSq
+  rw [List.length_map, dftReFrom_map_mul, dftImFrom_map_mul]
+  simp only [RealLike.sq]; ring
+
+theorem rfftSq_map_mul (a : ℝ) (l : List ℝ) : rfftSq (l.map (a * ·)) = (rfftSq l).map (a * a * ·) := by
+  unfold rfftSq
+  rw [List.length_map, List.map_map]
+  apply List.map_congr_left
+  intro k _
+  exact dftSq_map_mul a l k
+
+theorem chunks_map {β γ} (g : β → γ) (l : List β) (npw : Nat) :
+    chunks (l.map g) npw = (chunks l npw).map (List.map g) := by
+  unfold chunks
+  rw [List.length_map, List.map_map]
+  apply List.map_congr_left
+  intro c _
+  simp [List.map_take, List.map_drop]
+
+theorem chunks_length {β} (l : List β) (npw : Nat) : (chunks l npw).length = l.length / npw := by
+  simp [chunks]
+
+theorem meanRows_map_mul (s : ℝ) (rows : List (List ℝ)) (w : Nat) :
+    meanRows (rows.map (List.map (s * ·))) w = (meanRows rows w).map (s * ·) := by
+  unfold meanRows
+  rw [List.map_map, List.length_map]
+  apply List.map_congr_left
+  intro k _
+  simp only [Function.comp, List.map_map]
+  have : (fun r : List ℝ => (List.map (s * ·) r).getD k 0.0) = fun r => s * r.getD k 0.0 := by
+    funext r
+    simp only [List.getD_eq_getElem?_getD, List.getElem?_map]
+    cases r[k]? <;> simp [zero_lit]
+  have h2 : (rows.map fun r : List ℝ => s * r.getD k 0.0) = (rows.map fun r => r.getD k 0.0).map (s * ·) := by
+    rw [List.map_map]; rfl
+  show rsum (rows.map ((fun r : List ℝ => (List.map (s * ·) r).getD k 0.0))) / _ = _
+  rw [this, h2, rsum_map_mul]; ring
+
+end real
 end Verif.C10
